@@ -1,3 +1,136 @@
-(* C03 — statements are added when the corresponding facts file lands *)
-From SV Require Import Bytes Lexer Tables ArgCheck Machine Printer GenTables.
-Theorem C03_placeholder : True. Proof. exact I. Qed.
+(* C03 — accepted scripts are represented faithfully: nothing dropped or invented.
+
+   Proved here (sieve/CompleteFacts.v) for commands without tests and blocks — every action of the
+   tables (keep, stop, discard, redirect, fileinto, reject, vacation, set, ...) and every registered action of
+   the documented shape: feeding the argument tokens of `name arg_1 ... arg_n ;` (string lists written
+   '[' item (',' item)* ']') through the parser machine gives the SAME frame as feeding the arguments to the
+   table interpreter (C03_run_args), and closing the command with ';' appends exactly one node to the
+   result carrying exactly the argument map and the tag-parameter map the specification [legal] assigns
+   (C03_action_faithful): no token is dropped, overwritten, duplicated or attached to another command;
+   nothing else in the parser state changes.  On texts: every text that lexes — whatever its layout — to those
+   tokens is accepted with that one-node tree (C03_parse_single_action).
+   For tests, test lists, blocks and if/elsif/else chains faithfulness is not proved: every accepted input
+   of the enumerations, structural cases, generated scripts, layouts and mutants is compared with the tree
+   of an independent recursive-descent parser of the RFC 5228 generic grammar (names, nesting, order,
+   every tag with its parameter, nothing else), and the model's tree with the parser's tree. *)
+From Coq Require Import String.
+From Coq Require Import List NArith Bool Arith.
+From SV Require Import Bytes Lexer Tables ArgCheck ArgSpec Machine Printer GenTables.
+Import ListNotations.
+Local Open Scope nat_scope.
+From SV Require Import ArgCheckFacts PositionFacts TotalFacts RegisterFacts CompleteFacts.
+
+(* the argument tokens drive the machine exactly as the arguments drive the table interpreter; brackets, loaded extensions, comments and result are untouched *)
+Theorem C03_run_args :
+  forall (T : tables) (args : list argument) (st : pstate) (f : frame) 
+    (rest : list frame) (fN : frame),
+  in_args st f rest ->
+  p_expected st = None ->
+  Forall arg_ok args ->
+  feed f args (p_loaded st) = FOk fN ->
+  exists st' : pstate,
+    steps T st (flat_map arg_toks args) = Some st' /\
+    in_args st' fN rest /\
+    (p_expected st' = None \/ p_expected st' = Some [TSemicolon] /\ iscomplete fN None = true) /\
+    p_brackets st' = p_brackets st /\
+    p_loaded st' = p_loaded st /\ p_hash st' = p_hash st /\ p_result st' = p_result st.
+Proof. exact CompleteFacts.run_args. Qed.
+Print Assumptions C03_run_args.
+
+(* `name args ;` at top level appends exactly one node with the frame's maps; the pending hash comments move to it *)
+Theorem C03_action_accepted :
+  forall (T : tables) (st : pstate) (name : bytes) (d : cmddef) (args : list argument)
+    (fN : frame),
+  can_start st ->
+  get_command_instance T (p_loaded st) name = inl d ->
+  d_type d = CAction ->
+  twf d = true ->
+  d_complete d = HNone ->
+  d_must_follow d = None ->
+  Forall arg_ok args ->
+  feed (new_frame d AtTop) args (p_loaded st) = FOk fN ->
+  steps T st (mk TIdentifier name :: flat_map arg_toks args ++ [mk TSemicolon [59%N]]) =
+  Some
+    {|
+      p_stack := [];
+      p_cstate := CNone;
+      p_curlist :=
+        p_curlist
+          match
+            steps T (with_cstate CArgs (with_stack [new_frame d AtTop] st))
+              (flat_map arg_toks args)
+          with
+          | Some s => s
+          | None => st
+          end;
+      p_expected := None;
+      p_brackets := p_brackets st;
+      p_loaded := p_loaded st;
+      p_hash := [];
+      p_result := p_result st ++ [Node d (f_args fN) (f_extra fN) [] (p_hash st)]
+    |}.
+Proof. exact CompleteFacts.action_accepted. Qed.
+Print Assumptions C03_action_accepted.
+
+(* with the specification: legal and complete arguments give a node with exactly the specified maps *)
+Theorem C03_action_faithful :
+  forall (T : tables) (st : pstate) (name : bytes) (d : cmddef) (args : list argument)
+    (am em : list (bytes * aval)),
+  can_start st ->
+  get_command_instance T (p_loaded st) name = inl d ->
+  d_type d = CAction ->
+  twf d = true ->
+  d_complete d = HNone ->
+  d_must_follow d = None ->
+  wf_def d = true ->
+  fixed_arity d = true ->
+  Forall arg_ok args ->
+  legal d (p_loaded st) args = LComplete am em ->
+  exists cl : list bytes,
+    steps T st (mk TIdentifier name :: flat_map arg_toks args ++ [mk TSemicolon [59%N]]) =
+    Some
+      {|
+        p_stack := [];
+        p_cstate := CNone;
+        p_curlist := cl;
+        p_expected := None;
+        p_brackets := p_brackets st;
+        p_loaded := p_loaded st;
+        p_hash := [];
+        p_result := p_result st ++ [Node d am em [] (p_hash st)]
+      |}.
+Proof. exact CompleteFacts.action_complete. Qed.
+Print Assumptions C03_action_faithful.
+
+(* on texts: any layout that lexes to these tokens is accepted with exactly this tree *)
+Theorem C03_parse_single_action :
+  forall (T : tables) (text name : bytes) (d : cmddef) (args : list argument)
+    (am em : list (bytes * aval)),
+  twf_tables T = true ->
+  snd (lex text) = None ->
+  map strip_pos (fst (lex text)) =
+  mk TIdentifier name :: flat_map arg_toks args ++ [mk TSemicolon [59%N]] ->
+  get_command_instance T [] name = inl d ->
+  d_type d = CAction ->
+  d_complete d = HNone ->
+  d_must_follow d = None ->
+  wf_def d = true ->
+  fixed_arity d = true ->
+  Forall arg_ok args ->
+  legal d [] args = LComplete am em -> parse T text = Accept [Node d am em [] []].
+Proof. exact CompleteFacts.parse_single_action. Qed.
+Print Assumptions C03_parse_single_action.
+
+(* non-vacuity: vacation with tags, a number, a list and a string, from its text *)
+Example C03_vacation_example :
+  parse gen_tables (bs "require ""vacation""; vacation :days 7 :addresses [""a@b"", ""c,d""] :subject ""x\""y"" ""gone"";") =
+  match lookup_cmd gen_tables (bs "require"), lookup_cmd gen_tables (bs "vacation") with
+  | Some rq, Some vac =>
+      Accept [Node rq [(bs "capabilities", VStr (bs """vacation"""))] [] [] [];
+              Node vac [(bs "days", VStr (bs ":days")); (bs "addresses", VStr (bs ":addresses"));
+                        (bs "subject", VStr (bs ":subject")); (bs "reason", VStr (bs """gone"""))]
+                       [(bs "days", VStr (bs "7")); (bs "addresses", VList [bs """a@b"""; bs """c,d"""]);
+                        (bs "subject", VStr (bs """x\""y"""))] [] []]
+  | _, _ => Reject EUnknownToken 0 0
+  end.
+Proof. vm_compute. reflexivity. Qed.
